@@ -150,19 +150,27 @@ Section SBG.
     | k :: r => (match r with [] => true | k' :: _ => negb (k' =? k) end) :: gmask r
     end.
 
-  Fixpoint cumsum_from (a : A) (vs : list A) : list A :=
-    match vs with [] => [] | v :: r => add a v :: cumsum_from (add a v) r end.
+  (* starts = flatnonzero(append(True, index[:-1]))[:len(index)] as a mask: the first position of every group *)
+  Fixpoint fmask_from (prev : Z) (l : list Z) : list bool :=
+    match l with [] => [] | k :: r => negb (k =? prev) :: fmask_from k r end.
+  Definition fmask (ks : list Z) : list bool :=
+    match ks with [] => [] | k :: r => true :: fmask_from k r end.
 
-  Fixpoint adjdiff (p : A) (xs : list A) : list A :=
-    match xs with [] => [] | x :: r => sub x p :: adjdiff x r end.
+  (* np.add.reduceat(vs, flatnonzero(m)) for a start mask m (strictly increasing starts): the sums of the segments
+     [start_i, start_{i+1}).  [seg] returns (sum of the leading elements that belong to the segment opened further
+     left, sums of the segments that start inside the list) *)
+  Fixpoint seg (m : list bool) (vs : list A) : A * list A :=
+    match m, vs with
+    | b :: mr, v :: vr =>
+        let r := seg mr vr in
+        if b then (zero, add v (fst r) :: snd r) else (add v (fst r), snd r)
+    | _, _ => (zero, [])
+    end.
+  Definition segsum (m : list bool) (vs : list A) : list A := snd (seg m vs).
 
-  (* val[1:] = val[1:] - val[:-1] *)
-  Definition adjdiff0 (xs : list A) : list A :=
-    match xs with [] => [] | x :: r => x :: adjdiff x r end.
-
-  (* _sum_by_group_sorted (one value column; NaN-free values) *)
+  (* _sum_by_group_sorted (one value column; NaN-free values), /repo fafb76b: group sums by reduceat *)
   Definition sbg_sorted (ks : list Z) (vs : list A) : list Z * list A :=
-    (select (gmask ks) ks, adjdiff0 (select (gmask ks) (cumsum_from zero vs))).
+    (select (gmask ks) ks, segsum (fmask ks) vs).
 
   (* _sum_by_group_np; [order] is what np.argsort returned *)
   Definition sbg_np (order : list nat) (ks : list Z) (vs : list A) : list Z * list A :=
@@ -212,8 +220,8 @@ End SBG.
 (* several value columns, as the callers use it *)
 Definition sbg_cols_Z (use_numba numba_installed : bool) (ks : list Z) (cols : list (list Z))
   : list Z * list (list Z) :=
-  (fst (sbg 0 Z.add Z.sub use_numba numba_installed (argsort ks) ks (repeat 0 (length ks))),
-   map (fun c => snd (sbg 0 Z.add Z.sub use_numba numba_installed (argsort ks) ks c)) cols).
+  (fst (sbg 0 Z.add use_numba numba_installed (argsort ks) ks (repeat 0 (length ks))),
+   map (fun c => snd (sbg 0 Z.add use_numba numba_installed (argsort ks) ks c)) cols).
 
 Definition spec_cols_Z (ks : list Z) (cols : list (list Z)) : list Z * list (list Z) :=
   (distinct_sorted ks, map (fun c => snd (sbg_spec 0 Z.add ks c)) cols).
